@@ -1,6 +1,6 @@
 (* The writer: DocumentMapper queries and RedlineEngine edit application, as the code stands after the repairs.
-   Scope of this model: edits whose NEW text is inline (no line break, no leading Markdown heading). Block insertions
-   (new paragraphs) are outside; the driver answers OUTSIDE for them and only the oracles judge those runs.
+   Inline new text and block insertions (new text with line breaks and / or Markdown heading lines: track_insert creates
+   new paragraphs after the paragraph of the anchor) are both modelled.
    Every mutation of the document goes through the uid-addressed primitives of Prims.v. *)
 From Coq Require Import List NArith Bool Arith.
 Import ListNotations.
@@ -273,6 +273,94 @@ Definition next_run (uid : nat) (d : doc) : option node :=
   match fold_left (fun acc p => match acc with Some _ => acc | None => next_run_in uid (p_nodes p) end) (doc_paras d) None with
   | Some (Some n) => Some n | _ => None end.
 
+(* ---------- block insertions: track_insert on text with line breaks / heading lines ---------- *)
+Definition is_nl (c : char) : bool := N.eqb c 10%N || N.eqb c 13%N.
+(* re.split(r"[\r\n]+", s) *)
+Fixpoint split_lines_aux (s cur : str) (in_sep : bool) : list str :=
+  match s with
+  | [] => [rev cur]
+  | c :: r => if is_nl c then (if in_sep then split_lines_aux r cur true else rev cur :: split_lines_aux r [] true)
+              else split_lines_aux r (c :: cur) false
+  end.
+Definition split_lines (s : str) : list str := split_lines_aux s [] false.
+Fixpoint count_hashes (s : str) : nat := match s with c :: r => if N.eqb c c_hashN then S (count_hashes r) else 0 | [] => 0 end.
+Fixpoint drop_ws (s : str) : str := match s with c :: r => if isspace_u c then drop_ws r else s | [] => [] end.
+Definition strip_ws (s : str) : str := rev (drop_ws (rev (drop_ws s))).
+(* _parse_markdown_style: (text, heading level). Note: leading '#'s not followed by a space are dropped without a style. *)
+Definition md_style (s : str) : str * option nat :=
+  match s with
+  | c :: _ => if N.eqb c c_hashN then
+                let rest := strip_hashes s in
+                match rest with
+                | x :: _ => if N.eqb x 32%N then (strip_ws rest, Some (count_hashes s)) else (rest, None)
+                | [] => ([], None) end
+              else (s, None)
+  | [] => ([], None) end.
+(* heading levels above 9 have no style in the template: outside *)
+Definition block_ok (s : str) : bool := forallb (fun l => match snd (md_style l) with Some k => k <=? 9 | None => true end) (s :: split_lines s).
+Definition para_rec (uid : nat) (d : doc) : option para :=
+  find (fun p => match find_run_in uid (p_nodes p) with Some _ => true | None => false end) (doc_paras d).
+(* one new paragraph holding one w:ins: heading style, or a copy of the current paragraph's properties *)
+Definition new_para (e : eng) (text : str) (anchor : rpr) (suppress : bool) (style : option nat) (cur : para) : eng * para * nat :=
+  let '(e1, ins) := ins_inline e text anchor suppress in
+  let '(e2, pid) := fresh_e e1 in
+  (e2, {| p_id := pid; p_ppr := match style with Some _ => 0%N | None => p_ppr cur end;
+          p_style := match style with Some l => PSHeading l | None => p_style cur end; p_nodes := [ins] |}, node_uid ins).
+(* body.insert(p_index + 1 + i, new_p): positions are taken in the block list that holds the current paragraph *)
+Fixpoint insert_at {A} (i : nat) (x : A) (l : list A) : list A :=
+  match i, l with 0, _ => x :: l | S k, y :: r => y :: insert_at k x r | S _, [] => [x] end.
+Fixpoint index_of_para (pid : nat) (bs : list block) (i : nat) : option nat :=
+  match bs with
+  | [] => None
+  | BPara p :: r => if Nat.eqb (p_id p) pid then Some i else index_of_para pid r (S i)
+  | _ :: r => index_of_para pid r (S i) end.
+Definition place_here (pid : nat) (news : list (nat * para)) (bs : list block) : list block :=
+  match index_of_para pid bs 0 with
+  | Some k => fold_left (fun acc ip => insert_at (k + 1 + fst ip) (BPara (snd ip)) acc) news bs
+  | None => bs end.
+Fixpoint place_block (pid : nat) (news : list (nat * para)) (b : block) : block :=
+  match b with
+  | BPara p => b
+  | BTbl t rows => BTbl t (map (fun r => map (fun c => (fst c, place_here pid news (map (place_block pid news) (snd c)))) r) rows)
+  end.
+Definition place_paras (pid : nat) (news : list (nat * para)) (d : doc) : doc :=
+  {| d_stories := map (fun s => {| s_kind := s_kind s; s_blocks := place_here pid news (map (place_block pid news) (s_blocks s)) |}) (d_stories d);
+     d_comments := d_comments d; d_next_uid := d_next_uid d |}.
+Definition new_paras_step (anchor : rpr) (suppress : bool) (cur : para) (skip_empty : bool)
+    (acc : eng * list (nat * para) * list nat * nat) (line : str) : eng * list (nat * para) * list nat * nat :=
+  let '(e0, ns, cr, i) := acc in
+  let '(ct, st) := md_style line in
+  if skip_empty && match ct, st with [], None => true | _, _ => false end then (e0, ns, cr, S i)
+  else let '(e0', p, iu) := new_para e0 ct anchor suppress st cur in (e0', ns ++ [(i, p)], cr ++ [iu], S i).
+(* track_insert. Result: engine, the inline w:ins the caller still has to place (None on the heading path, where the
+   comment is attached here, on the created paragraphs) *)
+Definition track_insert (e : eng) (text : str) (anchor : rpr) (cur : para) (comment : str) (suppress : bool) : eng * option node :=
+  match split_lines text with
+  | [] => (e, None)
+  | l0 :: rest =>
+    match snd (md_style l0) with
+    | Some _ =>
+      let '(e1, news, created, _) := fold_left (new_paras_step anchor suppress cur true) (l0 :: rest) (e, [], [], 0) in
+      let e2 := with_doc e1 (place_paras (p_id cur) news (e_doc e1)) in
+      (match created with
+       | c0 :: _ => attach e2 c0 (match last_opt created with Some x => x | None => c0 end) comment
+       | [] => e2 end, None)
+    | None =>
+      let rest' := match last_opt rest with Some [] => removelast rest | _ => rest end in
+      (* new text that starts with a line break has no inline part (fix D45): no empty w:ins; the comment goes on the paragraphs *)
+      let '(e1, oins) := match l0, rest' with
+                         | [], _ :: _ => (e, None)
+                         | _, _ => let '(e1, ins) := ins_inline e l0 anchor suppress in (e1, Some ins)
+                         end in
+      let '(e2, news, created, _) := fold_left (new_paras_step anchor suppress cur false) rest' (e1, [], [], 0) in
+      let e3 := with_doc e2 (place_paras (p_id cur) news (e_doc e2)) in
+      match oins, created with
+      | None, c0 :: _ => (attach e3 c0 (match last_opt created with Some x => x | None => c0 end) comment, None)
+      | _, _ => (e3, oins)
+      end
+    end
+  end.
+
 (* ---------- one edit, addressed by offset ---------- *)
 Inductive op := OpIns | OpDel | OpMod.
 (* Outside r: the model does not cover this case and says why (the batch result carries r + 1):
@@ -311,13 +399,15 @@ Definition apply_indexed (s : est) (use_clean : bool) (start : nat) (target new 
   let inr := filter (fun x => o_real x && (start <? o_end x) && (o_start x <? start + ln)) sp in
   if match ctx with Some c => is_some_nonempty (o_ins c) | None => false end
   then (s, Outside (if same_ins inr then 0 else 4))      (* edit inside a pending insertion (wholly / partially) *)
-  else if negb (inline_text new) then (s, Outside 1)
+  else if negb (block_ok new) then (s, Outside 1)
   else match o with
   | OpIns =>
+      let inl := inline_text new in
       let '(d1, a0) := insertion_anchor (e_doc e) sp start in
       let here := find (fun x => (o_start x <=? start) && (start <? o_end x)) sp in
       let '(a, before) :=
         if Nat.eqb start 0 then (a0, true)
+        else if negb inl then (a0, false)
         else match here with
              | Some h =>
                match o_pid h with
@@ -335,17 +425,26 @@ Definition apply_indexed (s : est) (use_clean : bool) (start : nat) (target new 
         if negb (is_direct au d1) then (s, Outside 2)          (* D34: the anchor sits inside a tracked change *)
         else
           let e1 := with_doc e d1 in
-          if before then
-            let '(e2, ins) := ins_inline e1 new (run_rpr au d1) false in
-            let e3 := place_before e2 au ins in
+          let style := if before then run_rpr au d1
+                       else match next_run au d1 with
+                            | Some (NRun _ f _) => if ends_with_space new then f else run_rpr au d1
+                            | _ => run_rpr au d1 end in
+          if inl then
+            let '(e2, ins) := ins_inline e1 new style false in
+            let e3 := if before then place_before e2 au ins else place_after e2 au ins in
             (set_eng s (attach e3 (node_uid ins) (node_uid ins) comment), Applied)
           else
-            let style := match next_run au d1 with
-                         | Some (NRun _ f _) => if ends_with_space new then f else run_rpr au d1
-                         | _ => run_rpr au d1 end in
-            let '(e2, ins) := ins_inline e1 new style false in
-            let e3 := place_after e2 au ins in
-            (set_eng s (attach e3 (node_uid ins) (node_uid ins) comment), Applied)
+            match para_rec au d1 with
+            | None => (s, Outside 2)
+            | Some cur =>
+              let '(e2, oi) := track_insert e1 new style cur comment false in
+              match oi with
+              | None => (set_eng s e2, Applied)
+              | Some ins =>
+                let e3 := if before then place_before e2 au ins else place_after e2 au ins in
+                (set_eng s (attach e3 (node_uid ins) (node_uid ins) comment), Applied)
+              end
+            end
       end
   | _ =>
       let '(d1, work, modif) := resolve (e_doc e) sp start (start + ln) in
@@ -359,6 +458,7 @@ Definition apply_indexed (s : est) (use_clean : bool) (start : nat) (target new 
         else
           let lastw := match last_opt work with Some x => x | None => w0 end in
           let last_rpr := run_rpr lastw d1 in
+          let cur := para_rec lastw d1 in
           let '(e2, dels) := fold_left (fun acc u => let '(e0, ds) := acc in let '(e0', du) := delete_run e0 u in (e0', ds ++ [du])) work (s_eng s1, []) in
           let d_first := match dels with x :: _ => x | [] => 0 end in
           let d_last := match last_opt dels with Some x => x | None => 0 end in
@@ -366,9 +466,26 @@ Definition apply_indexed (s : est) (use_clean : bool) (start : nat) (target new 
           | OpDel, _ => (set_eng s1 (attach e2 d_first d_last comment), Applied)
           | _, [] => (set_eng s1 e2, Applied)
           | _, _ =>
-            let '(e3, ins) := ins_inline e2 new last_rpr (negb (has_md new)) in
-            let e4 := place_after e3 d_last ins in
-            (set_eng s1 (attach e4 d_first (node_uid ins) comment), Applied)
+            (* a heading line replacing text in a paragraph that already has that heading style loses its marker *)
+            let tti := match md_style new, cur with
+                       | (ct, Some l), Some p => match p_style p with PSHeading n => if Nat.eqb n l then ct else new | _ => new end
+                       | _, _ => new end in
+            if inline_text tti then
+              let '(e3, ins) := ins_inline e2 tti last_rpr (negb (has_md tti)) in
+              let e4 := place_after e3 d_last ins in
+              (set_eng s1 (attach e4 d_first (node_uid ins) comment), Applied)
+            else
+              match cur with
+              | None => (s, Outside 3)
+              | Some cp =>
+                let '(e3, oi) := track_insert e2 tti last_rpr cp comment (negb (has_md tti)) in
+                match oi with
+                | None => (set_eng s1 e3, Applied)
+                | Some ins =>
+                  let e4 := place_after e3 d_last ins in
+                  (set_eng s1 (attach e4 d_first (node_uid ins) comment), Applied)
+                end
+              end
           end
       end
   end.
